@@ -304,6 +304,8 @@ class NpShim(object):
         if not is_sym(a):
             return _np.std(a, axis=axis)
         use("np.std")
+        if axis is not None and isinstance(a, SArr) and len(a.axes) > 1:
+            return sym.along_axis(a, axis, lambda sub: sym.num_sqrt(NpShim.var(sub)))
         return sym.num_sqrt(NpShim.var(a, axis))
 
     @staticmethod
@@ -494,6 +496,12 @@ class GenericRange(object):
         k = CTX.fresh("k", "int")
         CTX.facts.append(z3.And(k >= lo, k < hi))
         CTX.loops.append((k, lo, hi))
+        # a loop over the positions of a known axis: k is an index term of that axis
+        if not z3.is_int_value(z3.simplify(hi)):
+            for a in CTX.all_axes:
+                if a.size.v.eq(hi):
+                    a.note_index(k)
+                    break
         yield SNum(FIN, k, is_int=True, is_numpy=False)
 
     def as_sel(self):
